@@ -64,6 +64,18 @@ class C12(Prop):
                 yield dict(entry="Copeland." + ["score", "scf", "swf"][cnt % 3], family="exh", rule="Copeland", method=["score", "scf", "swf"][cnt % 3],
                            P=P, zi=bool(cnt % 2), tb=V.TBS[cnt % 3], k=1)
                 yield dict(entry="STV.scf", family="exh", rule="STV", method="scf", P=P, zi=bool(cnt % 2), tb=["first", "random"][cnt % 2], k=1, seed=cnt)
+        # electorates of several hundred voters (ballots with multiplicities, shuffled), close pairwise majorities
+        for i in range(40 if tier == "quick" else 500):
+            m = rng.randint(2, 5); total = rng.choice([257, 300, 511, 513, 600, 1000, 1500])
+            ballots = [rng.sample(range(1, m + 1), m) for _ in range(rng.randint(2, 5))]
+            cuts = sorted(rng.sample(range(1, total), len(ballots) - 1)) if i % 2 else [total * (j + 1) // len(ballots) + rng.choice([-1, 0, 1]) for j in range(len(ballots) - 1)]
+            mults = [b - a for a, b in zip([0] + cuts, cuts + [total])]
+            if min(mults) <= 0: continue
+            P = [list(b) for b, w in zip(ballots, mults) for _ in range(w)]
+            if i % 3 == 0: rng.shuffle(P)
+            yield dict(entry="Copeland." + ["score", "scf", "swf"][i % 3], family="big", rule="Copeland", method=["score", "scf", "swf"][i % 3], P=P, zi=bool(i % 2), tb=V.TBS[i % 3], k=1)
+            if i % 4 == 0:
+                yield dict(entry="STV.scf", family="big", rule="STV", method="scf", P=P, zi=bool(i % 2), tb="first", k=1, seed=i)
         N = 300 if tier == "quick" else 6000
         for i in range(N):
             kind = rng.choice(["random", "random", "majority", "split", "cycle"])
